@@ -7,9 +7,9 @@
    parser oracles. *)
 From Coq Require Import List NArith ZArith Bool.
 From PV Require Import Lib.AmmoBytes Lib.AmmoDecimal Lib.AmmoLines Model.AmmoCommon Model.AmmoUri
-  Model.AmmoUripost Model.AmmoRaw Model.AmmoJson Model.AmmoRobust Model.AmmoConfigInput Model.AmmoJsonReject Model.AmmoVarSource Model.AmmoConfigValue Model.AmmoHostileConfig
+  Model.AmmoUripost Model.AmmoRaw Model.AmmoJson Model.AmmoRobust Model.AmmoConfigInput Model.AmmoJsonReject Model.AmmoVarSource Model.AmmoConfigValue Model.AmmoHostileConfig Model.AmmoCliConfig
   Proofs.AmmoSafetyProofs Proofs.AmmoPrefixProofs Proofs.AmmoRobustProofs Proofs.AmmoConfigInputProofs
-  Proofs.AmmoJsonRejectProofs Proofs.AmmoVarSourceProofs Proofs.AmmoConfigValueProofs Proofs.AmmoHostileConfigProofs.
+  Proofs.AmmoJsonRejectProofs Proofs.AmmoVarSourceProofs Proofs.AmmoConfigValueProofs Proofs.AmmoHostileConfigProofs Proofs.AmmoCliConfigProofs.
 Import ListNotations.
 
 (* [bad r] = the Scan ended in a panic or ran out of fuel. The fuel of every loop is linear
@@ -554,3 +554,108 @@ Example C13_hostile_config_examples :
   grpc_provider (fun l => Some (l, [])) false 0 0 (-5) 4 [97; 98; 10]%N = Some [PErr] /\
   grpc_provider (fun l => Some (l, [])) false (-1) 0 0 4 [97; 98; 10]%N = None.
 Proof. repeat split; vm_compute; reflexivity. Qed.
+
+(* ---------- round 8: the top-level config file as `pandora config.yaml` reads it (cli/cli.go readConfig) ----------
+   Model/AmmoCliConfig.v: a config value tree, the discard_overflow pre-pass with its two type assertions as
+   partial operations ([checked] = the comma-ok form of the repaired code), the decoder a parameter. *)
+
+(* the pre-pass itself never panics, whatever the tree *)
+Theorem C13_cli_prepass_no_panic :
+  forall s, prepass true s <> VPanic.
+Proof. exact prepass_checked_no_panic. Qed.
+Print Assumptions C13_cli_prepass_no_panic.
+
+(* for EVERY document and every decoder that refuses a tree of the wrong structure (mapstructure / validator:
+   `pools` missing or no list, an entry that is no mapping, log / monitoring that is no mapping): the reader
+   answers what the specification demands - an error for a document that is no mapping or has the wrong
+   structure, otherwise the decoder's answer on the tree with the defaults written in *)
+Theorem C13_cli_reader_meets_spec :
+  forall (R : Type) (decode : settings -> rres R),
+    decoder_rejects_bad_shape decode ->
+    forall top, cli_read true decode top = cli_expected decode top.
+Proof. exact cli_read_meets_spec. Qed.
+Print Assumptions C13_cli_reader_meets_spec.
+
+(* malformed => Err (never Panic, never accepted): the pre-pass does not hide a wrong structure from the decoder *)
+Theorem C13_cli_malformed_config_rejected :
+  forall (R : Type) (decode : settings -> rres R),
+    decoder_rejects_bad_shape decode ->
+    forall top,
+      match read_settings top with VOk s => shape_okb s = false | _ => True end ->
+      cli_read true decode top = VErr.
+Proof. exact cli_malformed_rejected. Qed.
+Print Assumptions C13_cli_malformed_config_rejected.
+
+(* never a panic, provided the decoder has none *)
+Theorem C13_cli_reader_no_panic :
+  forall (R : Type) (decode : settings -> rres R),
+    (forall s, decode s <> VPanic) -> forall top, cli_read true decode top <> VPanic.
+Proof. exact cli_no_panic. Qed.
+Print Assumptions C13_cli_reader_no_panic.
+
+(* well-formed => the decoder sees the tree with the defaults, which is still well-formed *)
+Theorem C13_cli_wellformed_config_defaults :
+  forall (R : Type) (decode : settings -> rres R) top s,
+    read_settings top = VOk s -> shape_okb s = true ->
+    cli_read true decode top = decode (spec_default s) /\ shape_okb (spec_default s) = true.
+Proof. exact cli_wellformed_defaults. Qed.
+Print Assumptions C13_cli_wellformed_config_defaults.
+
+(* what the pre-pass changes, property by property: no key other than `pools`; a `pools` value that is no
+   list not at all; in a list every entry that is no mapping stays as it is, every mapping keeps all its keys
+   and has discard_overflow = its own value, or true when it had none *)
+Theorem C13_cli_prepass_defaults_exactly :
+  forall s s',
+    prepass true s = VOk s' ->
+    (forall k, k <> k_pools -> lookup k s' = lookup k s) /\
+    match lookup k_pools s with
+    | Some (CList l) => exists l', lookup k_pools s' = Some (CList l') /\ Forall2 pool_rel l l'
+    | _ => s' = s
+    end.
+Proof. exact prepass_exact. Qed.
+Print Assumptions C13_cli_prepass_defaults_exactly.
+
+(* the repair changes nothing for configs whose `pools` is a list of mappings *)
+Theorem C13_cli_repair_keeps_wellformed_behaviour :
+  forall (R : Type) (decode : settings -> rres R) top s,
+    read_settings top = VOk s -> pools_okb s = true ->
+    cli_read false decode top = cli_read true decode top.
+Proof. exact cli_unchecked_same. Qed.
+Print Assumptions C13_cli_repair_keeps_wellformed_behaviour.
+
+(* the unchecked assertions (`v.Get("pools").([]any)`, `pool.(map[string]any)`) panic exactly on the malformed values *)
+Theorem C13_cli_unchecked_prepass_panics_iff :
+  forall s, prepass false s = VPanic <-> pools_okb s = false.
+Proof. exact prepass_unchecked_panics_iff. Qed.
+Print Assumptions C13_cli_unchecked_prepass_panics_iff.
+
+(* ... so with them the statement is false: an empty file, `pools: 5`, `pools: [1]` *)
+Theorem C13_cli_unchecked_reader_refuted :
+  exists (decode : settings -> rres unit) top1 top2 top3,
+    decoder_rejects_bad_shape decode /\ (forall s, decode s <> VPanic) /\
+    top1 = CNull /\ top2 = CMap [(k_pools, CInt 5)] /\ top3 = CMap [(k_pools, CList [CInt 1])] /\
+    cli_read false decode top1 = VPanic /\ cli_read false decode top2 = VPanic /\
+    cli_read false decode top3 = VPanic.
+Proof. exact cli_unchecked_refuted. Qed.
+Print Assumptions C13_cli_unchecked_reader_refuted.
+
+Example C13_cli_config_examples :
+  let dec := fun s : settings => if shape_okb s then VOk (spec_default s) else VErr in
+  let pool := CMap [([105; 100]%N, CStr [112]%N)] in
+  (* pools: [{id: p}, {id: p, discard_overflow: false}] -> true written into the first only *)
+  cli_read true dec (CMap [(k_pools, CList [pool; CMap [([105; 100]%N, CStr [112]%N); (k_discard, CBool false)]])])
+    = VOk [(k_pools, CList [CMap [([105; 100]%N, CStr [112]%N); (k_discard, CBool true)];
+                            CMap [([105; 100]%N, CStr [112]%N); (k_discard, CBool false)]])] /\
+  (* empty file, pools: 5, pools: {id: p}, pools: [{id: p}, 1], log: 5 -> rejected *)
+  cli_read true dec CNull = VErr /\
+  cli_read true dec (CMap [(k_pools, CInt 5)]) = VErr /\
+  cli_read true dec (CMap [(k_pools, pool)]) = VErr /\
+  cli_read true dec (CMap [(k_pools, CList [pool; CInt 1])]) = VErr /\
+  cli_read true dec (CMap [(k_pools, CList [pool]); (k_log, CInt 5)]) = VErr /\
+  (* a top-level list is no config at all *)
+  cli_read true dec (CList [pool]) = VErr /\
+  decoder_rejects_bad_shape dec.
+Proof.
+  repeat split; try (vm_compute; reflexivity).
+  intros s H. cbv beta. rewrite H. reflexivity.
+Qed.
